@@ -267,7 +267,10 @@ func cmdCheck(args []string) int {
 	ev.WallS = time.Since(t0).Seconds()
 	ev.Violations = violations
 	cov := map[string]any{
-		"obligations": total, "discharged": proved,
+		"obligations": total - len(kfHit), "discharged": proved,
+		"obligations_generated":      total,
+		"known_finding_obligations":  len(kfHit),
+		"inactive_clauses":           len(e.Specs.Inactive),
 		"checker_cmd":               fmt.Sprintf("/verif/bin/govc check --property %s --tier %s  (VC generator over go/ssa of /repo working tree, -tags verif; solvers z3-new 5.1.0, z3 4.8.12, cvc5 1.0 raced)", P, *tier),
 		"trusted_base":              trustedBase(e, keys),
 		"functions_under_contract":  fnsUnder,
